@@ -40,22 +40,42 @@ def run_case(cfg, fname, group=None, prepoll=False):
     vio = []
     n = 0
     ids = [s.id_ for s in inv.settings()]
-    if cfg['family'] != 'DT':
-        res = r.call(inv.read_settings_data)
-        n += 1
-        if res[0] != 'ok':
-            vio.append((f'settings-data-total/{cfg["family"]}/{res[1] if res[0] == "exc" else res[0]}', f'{fname}: {str(res)[:100]}'))
-        elif list(res[1]) != list(dict.fromkeys(ids)):
-            vio.append((f'settings-data-every-id/{cfg["family"]}', f'{fname}: missing {sorted(set(ids) - set(res[1]))[:4]}'))
-    for sid in ids:
-        if sid == 'time' and cfg['family'] == 'ES':
-            continue
-        res = r.call(inv.read_setting, sid)
-        n += 1
-        if res[0] == 'exc' and res[1] != 'ValueError':
-            vio.append((f'read_setting-only-ValueError/{cfg["family"]}/{res[1]}', f'{fname}: read_setting({sid!r}) raised {res[1:]}'))
-        if res[0] == 'hang':
-            vio.append((f'read_setting-terminates/{cfg["family"]}', sid))
+    # a second pass on the same object after the registers changed to the next content of the list (what was decodable
+    # becomes undecodable and the other way round): an undecodable value never stands in the way of a decodable one
+    names = list(FILLS)
+    for pass_ in ((fname,) if group is not None else (fname, names[(names.index(fname) + 1) % len(names)], 'ramp')):
+        if pass_ != fname:
+            dev.rf.fill = FILLS[pass_]
+            if cfg['family'] == 'ES':
+                for i in range(len(dev.settings)):
+                    dev.settings[i] = FILLS[pass_](i) & 0xFF
+        bulk = None
+        if cfg['family'] != 'DT':
+            res = r.call(inv.read_settings_data)
+            n += 1
+            if res[0] != 'ok':
+                vio.append((f'settings-data-total/{cfg["family"]}/{res[1] if res[0] == "exc" else res[0]}', f'{pass_}: {str(res)[:100]}'))
+            elif list(res[1]) != list(dict.fromkeys(ids)):
+                vio.append((f'settings-data-every-id/{cfg["family"]}', f'{pass_}: missing {sorted(set(ids) - set(res[1]))[:4]}'))
+            else:
+                bulk = {k: (None if v is None else str(v)) for k, v in res[1].items()}
+        for sid in ids:
+            if sid == 'time' and cfg['family'] == 'ES':
+                continue
+            res = r.call(inv.read_setting, sid)
+            n += 1
+            if res[0] == 'exc' and res[1] != 'ValueError':
+                vio.append((f'read_setting-only-ValueError/{cfg["family"]}/{res[1]}', f'{pass_}: read_setting({sid!r}) raised {res[1:]}'))
+            if res[0] == 'hang':
+                vio.append((f'read_setting-terminates/{cfg["family"]}', sid))
+            # (ET only: there the bulk read and the single read fetch the same registers; the ES bulk read decodes one AA55
+            # settings blob, the single reads of the eco groups go to Modbus registers - not the same bytes)
+            if bulk is not None and ids.count(sid) == 1 and sid != 'time' and cfg['family'] == 'ET':
+                # what the single read makes of the very same registers is what the bulk read reports for the id
+                want = str(res[1]) if res[0] == 'ok' and res[1] is not None else None if (res[0] == 'exc' and res[1] == 'ValueError') or res[0] == 'ok' else '?'
+                if want != '?' and bulk.get(sid) != want:
+                    vio.append((f'settings-data-value-is-the-single-reading/{cfg["family"]}',
+                                f'{pass_}{" (after " + fname + ")" if pass_ != fname else ""}: {sid} is {bulk.get(sid)!r} in read_settings_data(), read_setting() gives {want!r}'))
     return vio, n
 
 
